@@ -299,7 +299,7 @@ class Parsed:
         return r
 
 
-ITEXT_RE = re.compile(r"^jr:itext\('(.*)'\)$")
+ITEXT_RE = re.compile(r"^jr:itext\('([^']*)'\)$")
 
 
 def itext_id(ref):
